@@ -1,0 +1,29 @@
+//! Verification hooks, compiled only with the `verif` cargo feature.
+//!
+//! Provides a thread-local append-only event log which external monitors
+//! can drain. Call sites only read local state and never change behavior.
+
+use std::cell::{Cell, RefCell};
+
+thread_local! {
+    static ENABLED: Cell<bool> = const { Cell::new(false) };
+    static LOG: RefCell<Vec<(&'static str, String)>> = const { RefCell::new(Vec::new()) };
+}
+
+/// Enables or disables the recording on the current thread.
+pub fn set_enabled(enabled: bool) {
+    ENABLED.with(|e| e.set(enabled));
+}
+
+/// Appends an event to the log, if enabled.
+pub fn emit<F: FnOnce() -> String>(tag: &'static str, detail: F) {
+    if ENABLED.with(|e| e.get()) {
+        let detail = detail();
+        LOG.with(|l| l.borrow_mut().push((tag, detail)));
+    }
+}
+
+/// Takes all events recorded so far on the current thread.
+pub fn drain() -> Vec<(&'static str, String)> {
+    LOG.with(|l| std::mem::take(&mut *l.borrow_mut()))
+}
